@@ -260,6 +260,15 @@ func (e *Engine) callFunction(st *State, fr *Frame, res ssa.Value, callee *ssa.F
 				fr.env[res] = e.evalOld(st, fr, at)
 			}
 			return false
+		case callee.Origin() != nil && callee.Origin().Name() == "ghostctr":
+			kind, ok := strOf(st.norm(args[0][0]))
+			if !ok {
+				engineErr("ghostctr: the counter kind must be a string literal")
+			}
+			if res != nil {
+				fr.env[res] = Val{st.norm(Select(st.heap.get("ghost|"+kind, ArrSort(SInt)), args[1][0]))}
+			}
+			return false
 		case callee.Origin() != nil && (callee.Origin().Name() == "lockacq" || callee.Origin().Name() == "lockwacq" || callee.Origin().Name() == "lockheld"):
 			name := map[string]string{"lockacq": "sync|$acq", "lockwacq": "sync|$wacq", "lockheld": "sync|$held"}[callee.Origin().Name()]
 			if res != nil {
@@ -847,6 +856,12 @@ func (e *Engine) reeval(st *State, fr *Frame, v ssa.Value, depth int) Val {
 			case *types.Map:
 				return Val{e.mapLen(st, t, a[0])}
 			}
+		}
+		if callee, ok := x.Call.Value.(*ssa.Function); ok && callee.Origin() != nil && callee.Origin().Name() == "ghostctr" {
+			k0 := e.reeval(st, fr, x.Call.Args[0], depth+1)
+			kind, _ := strOf(k0[0])
+			a := e.reeval(st, fr, x.Call.Args[1], depth+1)
+			return Val{st.norm(Select(st.heap.get("ghost|"+kind, ArrSort(SInt)), a[0]))}
 		}
 		if callee, ok := x.Call.Value.(*ssa.Function); ok && callee.Origin() != nil && (callee.Origin().Name() == "lockacq" || callee.Origin().Name() == "lockwacq" || callee.Origin().Name() == "lockheld") {
 			name := map[string]string{"lockacq": "sync|$acq", "lockwacq": "sync|$wacq", "lockheld": "sync|$held"}[callee.Origin().Name()]
